@@ -706,7 +706,10 @@ FOREIGN_CLASS = 4  # HS: no record type has an implementation in this class -> R
 # lookup orders of the fresh-process scenario -> class of the first ("foreign") lookup.  ANY (255) and
 # NONE (254) are the classes of prerequisite / delete RRs of UPDATE messages (and of anything a peer sends);
 # ANY is also the class-independent key of the library's registry.
-FOREIGN_ORDERS = {"foreign-first": 4, "any-first": 255, "none-first": 254, "home-first": 4}
+FOREIGN_ORDERS = {"foreign-first": 4, "any-first": 255, "none-first": 254, "home-first": 4,
+                  # documented configuration (doc/rdata-class.rst): ordering comparisons of rdata with relative
+                  # names are disallowed (the announced future behaviour); equality must not be affected
+                  "home-first-strictcmp": 4}
 
 
 def foreign_event(key, rdtype, wire, fclass=FOREIGN_CLASS):
@@ -728,6 +731,8 @@ def fresh_traces(order, items):
     "home-first" (control): the other way round.  The registry of dns.rdata is process-global,
     so the order of first lookups is an input of the scenario."""
     out = []
+    if order.endswith("-strictcmp"):
+        dns.rdata._allow_relative_comparisons = False
     for it in items:
         key = it["ty"]
         t = TABLE[key]
@@ -747,7 +752,7 @@ def fresh_traces(order, items):
 
         try:
             fclass = FOREIGN_ORDERS[order]
-            if order != "home-first":
+            if not order.startswith("home-first"):
                 tr["ev"] = [foreign_event(key, rdtype, it["wire"], fclass)] + home()
             else:
                 tr["ev"] = home() + [foreign_event(key, rdtype, it["wire"], fclass)]
